@@ -6,7 +6,7 @@
     Floats are built by [f64_from_parts]: [significand as f64] then ONE multiplication/division by a
     power of ten per step — not correctly rounded. *)
 From Coq Require Import ZArith NArith List Bool.
-From Snel Require Import Base.Bytes Model.Float64 Model.RustText.
+From Snel Require Import Base.Bytes Model.Float64 Model.RustText Gen.Params.
 Import ListNotations.
 Open Scope N_scope.
 
@@ -147,8 +147,8 @@ Definition number_tail (neg : bool) (sig dropped : Z) (long : bool) (rest : byte
       else Some (JF64 (f64_with_sign true (f64_of_nat_int sig)), rest)
   end.
 
-(** [s] starts at the first digit (after an optional '-') *)
-Definition parse_number (neg : bool) (s : bytes) : option (json * bytes) :=
+(** [s] starts at the first digit (after an optional '-'); the reader without [float_roundtrip] *)
+Definition parse_number_legacy (neg : bool) (s : bytes) : option (json * bytes) :=
   match s with
   | c :: r =>
       if c =? 48 then
@@ -162,6 +162,75 @@ Definition parse_number (neg : bool) (s : bytes) : option (json * bytes) :=
       else None
   | [] => None
   end.
+
+(** The reader WITH the [float_roundtrip] feature: integers are classified as before; a float is the
+    CORRECTLY ROUNDED value of all its digits (the long paths keep every digit in the scratch buffer
+    and hand them to lexical), an infinite result is NumberOutOfRange. *)
+Definition number_int (neg : bool) (m : Z) (rest : bytes) : option (json * bytes) :=
+  if (u64_max <? m)%Z then
+    let b := f64_of_dec neg m 0%Z in
+    if f64_is_finite b then Some (JF64 b, rest) else None
+  else if negb neg then Some (JU64 m, rest)
+  else if (m =? 0)%Z then Some (JF64 (f64_with_sign true 0), rest)
+  else if (m <=? 2 ^ 63)%Z then Some (JI64 (- m), rest)
+  else Some (JF64 (f64_with_sign true (f64_of_nat_int m)), rest).
+
+Definition number_float (neg : bool) (m e10 : Z) (rest : bytes) : option (json * bytes) :=
+  let b := f64_of_dec neg m e10 in
+  if f64_is_finite b then Some (JF64 b, rest) else None.
+
+(** after the mantissa: optional exponent; [nfrac] fraction digits were folded into [m] *)
+Definition number_exp_rt (neg : bool) (m nfrac : Z) (rest : bytes) : option (json * bytes) :=
+  match rest with
+  | c :: r =>
+      if is_e c then
+        let '(epos, s1) := match r with
+                           | 43 :: x => (true, x)
+                           | 45 :: x => (false, x)
+                           | _ => (true, r)
+                           end in
+        match s1 with
+        | d :: r1 =>
+            if is_digit d then
+              match exp_digits r1 (Z.of_N (digit_val d)) with
+              | (Some e, rest') => number_float neg m ((if epos then e else - e) - nfrac)%Z rest'
+              | (None, rest') =>
+                  if negb (m =? 0)%Z && epos then None
+                  else Some (JF64 (f64_with_sign neg 0), rest')
+              end
+            else None
+        | [] => None
+        end
+      else number_float neg m (- nfrac)%Z rest
+  | [] => number_float neg m (- nfrac)%Z rest
+  end.
+
+Definition number_body_rt (neg : bool) (s : bytes) : option (json * bytes) :=
+  let '(m1, _, r1) := span_digits s 0%Z 0%Z in
+  match r1 with
+  | 46 :: r =>
+      let '(m2, n2, r2) := span_digits r m1 0%Z in
+      if (n2 =? 0)%Z then None else number_exp_rt neg m2 n2 r2
+  | c :: _ => if is_e c then number_exp_rt neg m1 0%Z r1 else number_int neg m1 r1
+  | [] => number_int neg m1 r1
+  end.
+
+Definition parse_number_rt (neg : bool) (s : bytes) : option (json * bytes) :=
+  match s with
+  | c :: r =>
+      if c =? 48 then
+        match r with
+        | d :: _ => if is_digit d then None else number_body_rt neg s
+        | [] => number_body_rt neg s
+        end
+      else if is_digit c then number_body_rt neg s
+      else None
+  | [] => None
+  end.
+
+(** which reader the build uses is read from Cargo.toml (Gen/Params.v) *)
+Definition parse_number (neg : bool) (s : bytes) : option (json * bytes) :=
+  if value_serde_float_roundtrip then parse_number_rt neg s else parse_number_legacy neg s.
 
 (** ---- strings ---- *)
 Definition hex_val (c : N) : option N :=
